@@ -601,14 +601,14 @@ func handWrittenDecodeInputs(r *rand.Rand) map[string][][]byte {
 	add("link", link(c1), link(c0), link([]byte{1, 0x55, 0, 0}), link([]byte{1, 0x55, 0, 3, 1, 2, 3}))
 	add("link-bad", cat([]byte{0xd8, 0x2a}, cborHead(2, uint64(len(c1))), c1), // no multibase 0 prefix
 		cat([]byte{0xd8, 0x2a, 0x40}), cat([]byte{0xd8, 0x2a, 0x41, 0x00}), cat([]byte{0xd8, 0x2a, 0x41, 0x01}),
-		link(append(append([]byte{}, c1...), 0)),     // trailing byte in cid
-		link(c1[:len(c1)-1]),                          // truncated digest
+		link(append(append([]byte{}, c1...), 0)), // trailing byte in cid
+		link(c1[:len(c1)-1]),                     // truncated digest
 		link(c0[:33]), link(append(append([]byte{}, c0...), 7)), link([]byte{0x12, 0x20}), link([]byte{0x12, 0x20, 1}),
 		link([]byte{2, 0x55, 0, 0}), link([]byte{0x81, 0x00, 0x55, 0, 0}), // version 2; non-minimal varint
 		link([]byte{1, 0x55, 0}), link([]byte{1, 0x55}), link([]byte{1}), link([]byte{1, 0x55, 0x80, 0x00, 0}),
-		link([]byte{1, 0x55, 0, 0x85, 0x80, 0x80, 0x80, 0x10}),              // digest length > MaxInt32
-		link([]byte{1, 0xff, 0xff, 0xff, 0xff, 0xff, 0xff, 0xff, 0xff, 0x7f, 0, 0}), // 63-bit codec
-		link([]byte{1, 0xff, 0xff, 0xff, 0xff, 0xff, 0xff, 0xff, 0xff, 0xff, 0x01, 0, 0}), // overflow
+		link([]byte{1, 0x55, 0, 0x85, 0x80, 0x80, 0x80, 0x10}),                                                   // digest length > MaxInt32
+		link([]byte{1, 0xff, 0xff, 0xff, 0xff, 0xff, 0xff, 0xff, 0xff, 0x7f, 0, 0}),                              // 63-bit codec
+		link([]byte{1, 0xff, 0xff, 0xff, 0xff, 0xff, 0xff, 0xff, 0xff, 0xff, 0x01, 0, 0}),                        // overflow
 		cat([]byte{0xd8, 0x2a, 0x5f}, cborHead(2, 1), []byte{0}, cborHead(2, uint64(len(c1))), c1, []byte{0xff})) // indefinite-length tagged bytes
 	// indefinite lengths
 	add("indef", []byte{0x9f, 0xff}, []byte{0x9f, 1, 2, 0xff}, []byte{0xbf, 0xff}, cat([]byte{0xbf}, str("a"), []byte{1, 0xff}),
@@ -777,19 +777,19 @@ func budgetProbes() (res []map[string]any, problems []string) {
 	h, _ := mh.Sum([]byte("x"), mh.SHA2_256, -1)
 	lnk := basicnode.NewLink(cidlink.Link{Cid: cid.NewCidV1(0x71, h)}) // 36 bytes: cost 37
 	probes := map[string]datamodel.Node{
-		"string(budget)":             str(budget),
-		"string(budget+1)":           str(budget + 1),
-		"bytes(budget)":              basicnode.NewBytes(make([]byte, budget)),
-		"bytes(budget+1)":            basicnode.NewBytes(make([]byte, budget+1)),
-		"list(null x budget/4)":      listOf(budget/4, datamodel.Null),
-		"list(null x budget/4+1)":    listOf(budget/4+1, datamodel.Null),
-		"list(int x budget/5)":       listOf(budget/5, basicnode.NewInt(7)),
-		"list(int x budget/5+1)":     listOf(budget/5+1, basicnode.NewInt(7)),
-		"map{abc: string(budget-11)}": mapOf("abc", str(budget-11)),
-		"map{abc: string(budget-10)}": mapOf("abc", str(budget-10)),
-		"list(link x 255750)":        listOf(255750, lnk), // 255750*41 = 10485750
-		"list(link x 255751)":        listOf(255751, lnk), // 255751*41 = 10485791 > budget
-		"list[list[string(k), string(k)]], 12+2k = budget":   listOf(1, listOf(2, str((budget-12)/2))),
+		"string(budget)":                                   str(budget),
+		"string(budget+1)":                                 str(budget + 1),
+		"bytes(budget)":                                    basicnode.NewBytes(make([]byte, budget)),
+		"bytes(budget+1)":                                  basicnode.NewBytes(make([]byte, budget+1)),
+		"list(null x budget/4)":                            listOf(budget/4, datamodel.Null),
+		"list(null x budget/4+1)":                          listOf(budget/4+1, datamodel.Null),
+		"list(int x budget/5)":                             listOf(budget/5, basicnode.NewInt(7)),
+		"list(int x budget/5+1)":                           listOf(budget/5+1, basicnode.NewInt(7)),
+		"map{abc: string(budget-11)}":                      mapOf("abc", str(budget-11)),
+		"map{abc: string(budget-10)}":                      mapOf("abc", str(budget-10)),
+		"list(link x 255750)":                              listOf(255750, lnk), // 255750*41 = 10485750
+		"list(link x 255751)":                              listOf(255751, lnk), // 255751*41 = 10485791 > budget
+		"list[list[string(k), string(k)]], 12+2k = budget": listOf(1, listOf(2, str((budget-12)/2))),
 	}
 	var names []string
 	for k := range probes {
